@@ -66,6 +66,9 @@ def gen_vparse(tier, rng):
         add('1.2.3-' + 'a' * (L - 6)); add('1.2.3' + 'a' * (L - 5)); add('1.2.3+' + 'b' * (L - 6))
         add('1.2.3-' + 'a' * (L - 8) + 'é'); add('1.2.3-' + 'a' * (L - 9) + '\U0001F600'); add(' ' * (L - 5) + '1.2.3'); add('1.2.3' + ' ' * (L - 5))
         add('1.2.3-' + '.'.join(['ab'] * ((L - 6) // 3)))
+    # longer than MAX_LENGTH in bytes but not in characters (and the other way round is impossible): the limit counts UTF-8 bytes
+    for body in ('\u00e9' * 126, '\u00e9' * 128, 'a' * 200 + '\u20ac' * 19, '\U0001F600' * 63, 'a' * 3 + '\U0001F600' * 62, '\u00e9' * 125, 'a' * 248 + '\u00e9', 'a' * 249 + '\u00e9', 'a' * 246 + '\u20ac\u20ac'):
+        add('1.2.3-' + body); add('1.2.3+' + body); add(' 1.2.3-' + body + ' '); add('900719925474100.0.0-' + body[:len(body) * 2 // 3]); add(body)
     # over-long inputs whose error position lies after newlines (line/column arithmetic of location())
     for L in (257, 263, 300):
         body = 'a' * (L - 6)
